@@ -37,6 +37,13 @@ type LoopContract struct {
 	HasAssigns bool
 }
 
+type Yield struct {
+	Name string
+	Args []Expr
+	Val  Expr
+	Line string
+}
+
 type FuncContract struct {
 	Key        string
 	Pkg        string
@@ -65,6 +72,7 @@ type FuncContract struct {
 	Method string
 	DetWhen    Expr
 	Determines []Expr // byte ranges whose final content must not depend on their initial content
+	Yields     []Yield // results that are functions of the arguments alone: name(args) == expr
 	GhostKeys []ghostItem // object-specific ghost effects: kind(expr)
 	ModGhost bool // the function has environment effects (sends, spawns, locks ...)
 	NoTerm bool // loops may omit decreases (environment loops)
@@ -265,7 +273,7 @@ func pkgOfFile(P *Program, file string) (short string, path string) {
 
 var clauseWords = map[string]bool{"props": true, "decoder": true, "encoder": true, "inline": true,
 	"trusted": true, "requires": true, "ensures": true, "assigns": true, "let": true, "loop": true,
-	"noterm": true, "ghost": true, "determines": true, "pure": true, "exact": true, "timeout": true, "prune": true, "thorough": true}
+	"noterm": true, "ghost": true, "determines": true, "pure": true, "exact": true, "timeout": true, "prune": true, "thorough": true, "yields": true}
 
 func (cs *ContractSet) parseFile(P *Program, file string) error {
 	data, err := os.ReadFile(file)
@@ -522,6 +530,24 @@ func (ct *FuncContract) addClause(w, rest, where string) error {
 			}
 			ct.Assigns = append(ct.Assigns, x)
 		}
+	case "yields":
+		x, err := parseExpr(rest)
+		if err != nil {
+			return fmt.Errorf("yields: %v", err)
+		}
+		b, ok := x.(EBinary)
+		if !ok || b.Op != "==" {
+			return fmt.Errorf("yields: expected name(args) == expr")
+		}
+		call, ok := b.X.(ECall)
+		if !ok {
+			return fmt.Errorf("yields: expected name(args) == expr")
+		}
+		id, ok := call.Fun.(EIdent)
+		if !ok {
+			return fmt.Errorf("yields: expected name(args) == expr")
+		}
+		ct.Yields = append(ct.Yields, Yield{Name: id.Name, Args: call.Args, Val: b.Y})
 	case "determines":
 		if k := strings.Index(rest, " when "); k >= 0 {
 			x, err := parseExpr(rest[k+6:])
